@@ -62,7 +62,7 @@ PROPS["C10"] = dict(
     stated_not_proved=["Ddo.C10.DomPruneOk (solver level: enabling the checker never changes the optimum) - watched by the solver correspondence runs, not proved"],
     level_text="Checker part (sentences 2-4 of the property) proved for every query sequence: dominated iff a previously presented state of the same depth and key is >= everywhere and > somewhere; otherwise recorded and everything it dominates dropped; the store is an antichain equal to the Pareto front of the history; the threshold is >= the presented value and sound; the comparator ranks a dominating state first. Solver part (sentence 1) is partial: not a theorem, watched by the solver-level correspondence runs with dominance enabled (engine seq, see C01).",
     level_note="Partial: sentence 1 (solver-level soundness of dominance pruning across diagrams) is stated (DomPruneOk) but not proved. Hypothesis of the checker theorems: the rule has one dimension per key (the code reads both states with nb_dimensions of the first).",
-    engines=[dict(name="dom")],
+    engines=[dict(name="dom"), dict(name="mdd", label="mdd_clean", args=[]), dict(name="seq", label="seq_dominance", args=["--focus-dominance"])],
     trusted_base=TB_COMMON + ["dashmap entry API = finite map", "Vec::retain visits elements in order"],
     assumptions=["dominance rule of uniform dimension per key", "values are isize (InI) for threshold_sound"],
     rule="all query sequences of length <= 3 (quick) / 4 (thorough) over 22 operations (18 (coords, value) combinations on one key, a key-less state, a second key, a second depth, clear_layer), with and without value; random sequences of length 4..150 with 0..3 coordinates, isize extremes, out-of-range depths; comparator evaluated on all pairs of the first six presented entries; concurrent phases; non-trivial = a dominated verdict, a clear or a panic occurred; distinct = distinct sequence",
@@ -278,4 +278,20 @@ PROPS["C08"] = dict(
     engines=MDD_ENGINES, trusted_base=MDD_TB,
     assumptions=["NoClamp", "the root sub-problem is exact (Reach)"],
     rule=MDD_RULE + "; pooled diagrams additionally with long arcs", trivial_tags=MDD_TRIVIAL,
+)
+
+PROPS["C09"] = dict(
+    modules=["DdoModel.Props.C09"],
+    theorems=["Ddo.C09.clear_layer_safe_seq", "Ddo.C09.clear_layer_safe_par", "Ddo.C09.must_explore_spec", "Ddo.C09.threshold_never_decreases",
+              "Ddo.C18.get_eq_max_since_clear", "Ddo.C18.update_comm", "Ddo.C18.updates_perm_invariant"],
+    stated_not_proved=["Ddo.C09.CachePreservesOpt (sentence 1 for arbitrary runs: a research-size invariant over compilations that consume each other's thresholds)",
+                       "Ddo.C09.ThetaSoundIsolated (soundness of the thresholds written by one diagram in isolation; per-node step proved on an abstract layered diagram at design time)"],
+    level_text="Partial by design (DESIGN.md 6 C09, 9). Proved for every history: the cache is a faithful max-map in (value, explored) order with commuting, idempotent, monotone updates; must_explore is exactly the rule of the property; the solvers clear a cache layer only when nothing open (and, in parallel, nothing in progress) has that depth. Watched rather than proved: global safety of threshold pruning across compilations. The watching is tight: the thresholds written by the implementation are compared with the diagram models' as exact multisets of update_threshold calls per compilation (also with a pre-filled cache, so that filtering and propagation through cache-pruned nodes are exercised); caching solvers are validated tape by tape and compared with the exact optimum on re-convergent instances, sequentially and under the controlled scheduler with every cache read / write inside a compilation as a scheduling point.",
+    level_note="Partial: sentence 1 of the property is not a theorem; see stated_not_proved. What a run of this check can show is a threshold, a filter decision, a must_explore answer or a final value that differs from the models / the exact optimum on an explored input.",
+    engines=[dict(name="cache"), dict(name="mdd", label="mdd_clean", args=[]), dict(name="mdd", label="mdd_pooled", args=["--pooled"]),
+             dict(name="seq", label="seq_cache", args=["--focus-cache"]), dict(name="par", label="par_cache", args=["--focus-cache"])],
+    trusted_base=PAR_TB,
+    assumptions=["dashmap operations atomic (C18)"],
+    rule=SEQ_RULE + "; --focus-cache: SimpleCache always on, saturating (heavily re-convergent) TableDP instances with few base states and many layers, width 1..2; " + PAR_RULE,
+    trivial_tags=SEQ_TRIVIAL + MDD_TRIVIAL + PAR_TRIVIAL + ["exhaustive"],
 )
